@@ -47,7 +47,23 @@ func genValue(r *common.Rand, g *common.Gen) []byte {
 		return r.Bytes(r.Range(0, 4))
 	case k < 15:
 		g.Stat("val-number")
-		return enc.Nat(common.Pick(r, []uint64{0, 1, 255, 256, 65535, 65536, 1<<32 - 1, 1 << 32, 1<<64 - 1, r.U64()})).Bytes()
+		// shortest big-endian encoding (1, 2, 4 or 8 bytes) computed here, NOT by the code under test
+		v := common.Pick(r, []uint64{0, 1, 255, 256, 65535, 65536, 1<<32 - 1, 1 << 32, 1<<64 - 1, r.U64(), 1<<16 - 1, 1<<8 - 1, 1<<32 - 2, 1<<32 + 1})
+		w := 8
+		switch {
+		case v <= 0xff:
+			w = 1
+		case v <= 0xffff:
+			w = 2
+		case v <= 0xffffffff:
+			w = 4
+		}
+		b := make([]byte, w)
+		for k := w - 1; k >= 0; k-- {
+			b[k] = byte(v)
+			v >>= 8
+		}
+		return b
 	case k < 16:
 		g.Stat("val-number-nonshortest")
 		return common.Pick(r, [][]byte{{0, 1}, {0, 0, 1}, {0, 0, 0, 5}, {1, 2, 3}, {}, {0, 0, 0, 0, 0, 0, 0, 0, 7}, {1, 0, 0, 0, 0, 0, 0, 0, 0}})
@@ -303,6 +319,9 @@ func gen(g *common.Gen) {
 				g.Op("h %s", common.NameText(uriTwin(r, g, a)))
 			}
 			g.Op("ph %s", ct)
+			if a.EncodingLength() < 5000 {
+				g.Op("cln %s", bt) // a clone must not share storage with the buffer the name was decoded from
+			}
 			if k == 0 {
 				// hashing is used from every face goroutine: the hash of a name must not depend on
 				// what other goroutines hash at the same time
@@ -596,6 +615,23 @@ func exec(op string) string {
 			return "c=" + strings.Join(cls, ",")
 		}
 		return "bad-op"
+	case "cln":
+		// decode in place from a buffer, clone, then reuse the buffer (as a face does with its receive
+		// buffer): the clone must still be the name
+		buf := common.ParseNameText(f[1]).Bytes()
+		dec, err := enc.NameFromBytes(buf)
+		if err != nil {
+			return "err"
+		}
+		cl := dec.Clone()
+		last := enc.Component{}
+		if len(dec) > 0 {
+			last = dec[len(dec)-1].Clone()
+		}
+		for i := range buf {
+			buf[i] ^= 0xa5
+		}
+		return common.NameText(cl) + " " + common.CompText(last)
 	case "tabr":
 		return execTabr(f[1], f[2:])
 	case "h":
